@@ -100,7 +100,8 @@ def values(draw, kind, n, mode=None, na=None):
 
 def nrows(max_rows):
     """Row counts with 0 and 1 over-weighted; one integer draw so that it shrinks towards 0."""
-    extra = [0, 0, 1, 1, 2, 3, 3]
+    # a few sizes beyond 16 rows also in the quick tier: NumPy switches sort algorithms there
+    extra = [0, 0, 1, 1, 2, 3, 3] + ([17, 24, 33] if max_rows < 17 else [])
     return st.integers(0, max_rows + len(extra)).map(
         lambda x: x if x <= max_rows else extra[x - max_rows - 1])
 
